@@ -49,12 +49,11 @@ def handleObj (tree : Obj) (impl : String) : String × String :=
         -- which listed defect classes are present, and do they cover every failing half?
         let wantTree := readBack sorted
         let c1 : List String :=
-          (if hasBadName LibNameOk tree then ["name"] else []) ++
+          (if hasBadName NameAscii tree then ["nonascii"] else []) ++
           (if hasRefLike wantTree then ["reflike"] else []) ++
           (if hasBigReal tree then ["bigreal"] else []) ++
           (if hasFarRef tree then ["farref"] else [])
         let c2 : List String :=
-          (if hasBadName SpecNameOk tree then ["name"] else []) ++
           (if hasCRString tree then ["cr"] else [])
         let explained := (t1 || !c1.isEmpty) && (t2 || !c2.isEmpty) && model == impl
         let halves := joinPlus ((if t1 then [] else ["library-parser"]) ++ (if t2 then [] else ["independent-reader"]))
